@@ -257,14 +257,15 @@ func (s *IndexedState) Add(ctx *Context, id string, x Map) (string, error) {
 	delete(s.cachedRules, id)
 	s.slock(ctx, false)
 	id, err := s.add(ctx, id, x)
+	var js []byte
+	if err == nil {
+		// Persist what we keep in memory (an absolute 'expires'
+		// instead of a 'ttl') so that a reload reproduces it.
+		js, err = json.Marshal(s.IdToFact[id])
+	}
 	s.sunlock(ctx, false)
 
 	if nil != err {
-		return "", err
-	}
-
-	js, err := json.Marshal(&x)
-	if err != nil {
 		return "", err
 	}
 	d := Pair{[]byte(id), js}
